@@ -337,6 +337,19 @@ impl Gen {
                     I32_MAX,
                 )
             }
+            2 if self.rng.chance(1, 2) => {
+                // a year as far from the calendar's special years as the type allows — a difference
+                // `year − special` that no longer fits the type — on a century, where the two leap
+                // rules part: the bottom (top) of i32 plus (minus) up to the special year's magnitude
+                self.hit("y:wrap");
+                let span = match *oc {
+                    OCal::Reforming(r) => oracle::label(Rule::Gregorian, r).0.abs() + 200,
+                    _ => 6000,
+                };
+                let c = 100 * self.rng.range(0, span / 100) + self.rng.range(-1, 1) * i64::from(self.rng.chance(1, 3));
+                let y = if self.rng.chance(3, 4) { I32_MIN + 48 + c } else { I32_MAX - 47 - c };
+                clamp(y, I32_MIN, I32_MAX)
+            }
             _ => {
                 let j = self.jdn(oc);
                 let (y, _, _) = oc.label(j);
@@ -379,6 +392,11 @@ impl Gen {
                 self.hit("ymd:day-uniform");
                 self.rng.range(0, 40)
             }
+            3 if self.rng.chance(1, 2) => {
+                // an existing day plus a multiple of 2^8 / 2^16 / 2^24 (what a narrowed field keeps)
+                self.hit("ymd:day-alias");
+                (d.max(0) + *self.rng.pick(&[256i64, 512, 65536, 1 << 24, 1 << 31, 4294967040])).min(U32_MAX)
+            }
             _ => d,
         };
         let m = if self.rng.chance(1, 10) { self.rng.range(1, 12) as u32 } else { m };
@@ -391,6 +409,11 @@ impl Gen {
             0 => *self.rng.pick(&[0, 1, 2, 354, 355, 356, 364, 365, 366, 367, U32_MAX, U32_MAX - 10, U32_MAX - 366]),
             1 => self.rng.range(0, 400),
             2 => clamp(self.dict_near(), 0, U32_MAX),
+            3 if self.rng.chance(1, 2) => {
+                // an existing ordinal plus a multiple of 2^9 / 2^16 / 2^24
+                let base = oc.year_span(y).map_or(1, |(a, b)| self.rng.range(1, (b - a + 1).max(1)));
+                (base + *self.rng.pick(&[512i64, 65536, 1 << 24, 1 << 31, 4294966784])).min(U32_MAX)
+            }
             _ => match oc.year_span(y) {
                 Some((a, b)) => {
                     let n = b - a + 1;
@@ -979,6 +1002,13 @@ pub fn emit(prop: &str, g: &mut Gen, out: &mut Vec<String>) {
             push(out, format!("shape {ct} {y} {m}"));
             push(out, format!("shapeq {ct} {y} {m} {d}"));
             push(out, format!("shapeq {ct} {y} {m} {}", g.rng.range(0, 33)));
+            if g.rng.chance(1, 4) {
+                // a day or ordinal whose low bits are those of a day that exists (a narrowed field or
+                // a truncating cast would take it for that day), and the ends of the type
+                let hi = *g.rng.pick(&[256i64, 512, 65536, 65536 + 256, 1 << 24, 1 << 31, 4294967040, 0]);
+                let lo = if g.rng.chance(1, 2) { d.max(0) } else { g.rng.range(0, 33) };
+                push(out, format!("shapeq {ct} {y} {m} {}", (hi + lo).min(4294967295)));
+            }
             // the day list taken from both ends in one iterator (a walk that restarts its range
             // when it meets the gap must not forget what the other end has already yielded)
             if g.rng.chance(1, 3) {
@@ -1272,6 +1302,18 @@ pub fn emit(prop: &str, g: &mut Gen, out: &mut Vec<String>) {
                             let cased = if g.rng.chance(1, 3) { base.to_lowercase() } else { base.to_string() };
                             format!("{}{}{}", &cased[..i], b, &cased[i + a.len()..])
                         }
+                    }
+                    6 if g.rng.chance(1, 2) && !base.is_empty() => {
+                        // ONE bit of ONE byte flipped (bit 5 is the ASCII case bit; a comparison that
+                        // masks more than that bit accepts `Ma9`, `J!nuary`, `$ec`), in any casing
+                        g.hit("name:bitflip");
+                        let cased = match g.rng.below(3) { 0 => base.to_lowercase(), 1 => base.to_uppercase(), _ => base.to_string() };
+                        let mut b = cased.into_bytes();
+                        let i = g.rng.below(b.len() as u64) as usize;
+                        let bit = *g.rng.pick(&[6u8, 6, 6, 5, 4, 3, 2, 1, 0]);
+                        b[i] ^= 1 << bit;
+                        if g.rng.chance(1, 3) { b[i] ^= 1 << 5; }
+                        String::from_utf8(b).unwrap_or_else(|_| "Ma9".into())
                     }
                     6 => base.chars().take(g.rng.below(10) as usize).collect(),
                     _ => format!("{base}{}", *g.rng.pick(&["s", ".", "day", "\u{0}"])),
